@@ -1,12 +1,18 @@
+pub mod evidence;
 pub mod front;
-pub mod rng;
+pub mod pool;
+pub use heapmon::rng;
 pub mod trace;
 
 /// reference (big-step) interpreter over the checked source AST
+#[cfg(feature = "exec")]
 pub mod refint;
 /// interpreter for samlang_ast::mir::Sources with wasm integer semantics
+#[cfg(feature = "exec")]
 pub mod mirint;
 /// validator + checking interpreter for the emitted WasmGC bytes
+#[cfg(feature = "exec")]
 pub mod wasmi;
 /// TypeScript type-eraser + batched execution under the real node
+#[cfg(feature = "exec")]
 pub mod tsrun;
